@@ -29,6 +29,8 @@ type kase struct {
 var stateNames = []string{"absent", "empty", "flat", "nested", "4k", "20k", "40k"}
 var extraNames = []string{"none", "one", "five", "duplicates", "fetch-like", "preference-like", "auth-like-last", "odd-names", "preference-entry-first"}
 
+var clientKinds = []string{"dial", "handbuilt", "forged-state", "forged-state+skip", "swapped-state", "swapped-state+skip", "unsigned-state", "unsigned-state+skip"}
+
 func stateOf(n string) *structpb.Struct {
 	switch n {
 	case "absent":
@@ -143,11 +145,21 @@ func (w *world) one(k kase, r *engine.Report) (string, string) {
 			req := &types.GenerateServerCertificatesRequest{CertificatePublicKeyPkix: w.node.K.Pkix, Nonce: nonce, NonceSignature: w.node.K.Sign(nonce)}
 			if st != nil {
 				req.ClientState, _ = proto.Marshal(st)
-				signer := w.node.K
-				if k.Client == "forged-state" {
-					signer = harness.NewCertKey("forger", w.seed)
+				req.ClientStateSignature = w.node.K.Sign(req.ClientState)
+				switch strings.TrimSuffix(k.Client, "+skip") {
+				case "forged-state":
+					// signed by a key that is not the node's
+					req.ClientStateSignature = harness.NewCertKey("forger", w.seed).Sign(req.ClientState)
+				case "swapped-state":
+					// the node's own signature, over a different state
+					other, _ := structpb.NewStruct(map[string]any{"role": "worker"})
+					ob, _ := proto.Marshal(other)
+					req.ClientStateSignature = w.node.K.Sign(ob)
+				case "unsigned-state":
+					req.ClientStateSignature = nil
 				}
-				req.ClientStateSignature = signer.Sign(req.ClientState)
+				// the flag only the server's own fetch path may set
+				req.SkipVerification = strings.HasSuffix(k.Client, "+skip")
 			}
 			b := w.node.Creds.CertificateBundles[0]
 			c := &harness.AuthClient{Request: req, Chain: [][]byte{b.CertificateDer, b.CaCertificateDer}, Key: w.node.K.Priv, Preference: harness.CaKeyId(b.CaCertificateDer), ExtraProtos: extras}
@@ -175,16 +187,20 @@ func (w *world) one(k kase, r *engine.Report) (string, string) {
 		}
 	}
 	if got == nil {
-		if k.Client == "forged-state" {
+		if unverifiable(k.Client) {
 			r.Branch("forged-state-rejected")
+			r.Branch("rejected:" + k.Client)
 		} else {
 			r.Outcome("not-authenticated:" + k.State + ":" + k.Extra + fmt.Sprintf(":%v", dialErr != nil))
 			r.Outcome("trivial")
 		}
 		return "", ""
 	}
-	if k.Client == "forged-state" && st != nil && len(st.Fields) > 0 {
-		return "forged-state-delivered", desc + ": a connection was returned although the client state signature is forged"
+	if unverifiable(k.Client) && st != nil && len(st.Fields) > 0 {
+		if cs := got.Conn.(*protocol.Conn).ClientState(); cs != nil && len(cs.Fields) > 0 {
+			return "forged-state-delivered:" + k.Client, desc + ": the application was handed a client state whose signature does not verify"
+		}
+		return "forged-state-accepted:" + k.Client, desc + ": a connection was returned although the client state signature does not verify"
 	}
 	pc := got.Conn.(*protocol.Conn)
 	if !sameState(pc.ClientState(), st) {
@@ -232,6 +248,9 @@ func (w *world) one(k kase, r *engine.Report) (string, string) {
 	return "", ""
 }
 
+// unverifiable reports the client kinds whose state signature cannot verify.
+func unverifiable(client string) bool { return client != "dial" && client != "handbuilt" }
+
 func firstDiff(a, b []string) string {
 	for i := 0; i < len(a) && i < len(b); i++ {
 		if a[i] != b[i] {
@@ -260,13 +279,13 @@ func preview(l []string) string {
 }
 
 func run(c *engine.Ctx, r *engine.Report) {
-	r.Need("authenticated:dial", "authenticated:handbuilt", "state-delivered", "extras-delivered", "forged-state-rejected")
+	r.Need("authenticated:dial", "authenticated:handbuilt", "state-delivered", "extras-delivered", "forged-state-rejected", "rejected:forged-state+skip", "rejected:swapped-state+skip", "rejected:unsigned-state")
 	w := newWorld(c.Seed)
 	i := 0
-	for _, client := range []string{"dial", "handbuilt", "forged-state"} {
+	for _, client := range clientKinds {
 		for _, s := range stateNames {
 			for _, e := range extraNames {
-				if client == "forged-state" && (s == "absent" || s == "empty") {
+				if unverifiable(client) && (s == "absent" || s == "empty") {
 					continue
 				}
 				i++
@@ -307,7 +326,7 @@ func init() {
 	engine.Register(&engine.CheckDef{
 		ID:    "C16",
 		Level: "exploration",
-		Rule: "client state {absent, empty, flat, nested 3 levels, 4 KiB, 20 KiB, 40 KiB} x extra ALPN lists {none, one, five, duplicates, fetch-prefix-like, preference-like, auth-like, odd names incl. the split listener's reserved ones and a 255-byte name} through the real Dial and through a hand-built client whose offered list is known exactly, plus the same with a forged state signature; oracle evaluated only on authenticated connections; " +
+		Rule: "client state {absent, empty, flat, nested 3 levels, 4 KiB, 20 KiB, 40 KiB} x extra ALPN lists {none, one, five, duplicates, fetch-prefix-like, preference-like, auth-like, odd names incl. the split listener's reserved ones and a 255-byte name} through the real Dial and through a hand-built client whose offered list is known exactly, plus the same with a state signature that cannot verify {signed by another key, the node's signature over a different state, absent} each with and without the request's skip_verification flag set by the client; oracle evaluated only on authenticated connections; " +
 			"distinct_nontrivial counts cases (distinct by construction) whose connection authenticated (or, for forged state, was judged)",
 		Assumptions: []string{"an empty client state and an absent one are treated as the same value (both carry no fields)", "states too large for a ClientHello do not authenticate and are counted, not judged"},
 		Shards:      func(c *engine.Ctx) int { return 8 },
